@@ -39,6 +39,9 @@ pub enum Mutation {
     Insignificant(u8),
     /// drop / add one optional field
     DropField(u8),
+    /// replace the last character of one field by a neighbour of the same class (digit -> another
+    /// digit, letter -> another letter): values that differ only at the very end of a long field
+    BumpLast(u8),
 }
 
 #[derive(Clone, Debug, Serialize, Deserialize)]
@@ -172,6 +175,20 @@ fn mutate(f: &Fields, m: &Mutation) -> Fields {
             1 => g.subpath = if g.subpath.is_empty() { ".".into() } else { format!("./{}/..", g.subpath) },
             2 => g.ns = g.ns.replace('/', "//"),
             _ => g.quals.push(("zz-empty".into(), String::new())),
+        },
+        Mutation::BumpLast(i) => {
+            let s = field_mut(&mut g, *i);
+            if let Some(c) = s.pop() {
+                let d = match c {
+                    '0'..='8' => ((c as u8) + 1) as char,
+                    '9' => '8',
+                    'a'..='y' | 'A'..='Y' => ((c as u8) + 1) as char,
+                    'z' => 'y',
+                    'Z' => 'Y',
+                    _ => 'x',
+                };
+                s.push(d);
+            }
         },
         Mutation::DropField(i) => match i % 4 {
             0 => g.ns.clear(),
@@ -324,6 +341,7 @@ fn o_pair(c: &PairCase, st: &mut Stats) -> Result<(), String> {
         Mutation::QueryIntoName => "mutation:query-into-name",
         Mutation::Insignificant(_) => "mutation:insignificant",
         Mutation::DropField(_) => "mutation:drop-field",
+        Mutation::BumpLast(_) => "mutation:bump-last",
     });
     Ok(())
 }
@@ -340,6 +358,7 @@ fn gmutation() -> BoxedStrategy<Mutation> {
         2 => Just(Mutation::QueryIntoName),
         2 => any::<u8>().prop_map(Mutation::Insignificant),
         1 => any::<u8>().prop_map(Mutation::DropField),
+        3 => any::<u8>().prop_map(Mutation::BumpLast),
     ]
     .boxed()
 }
